@@ -37,6 +37,7 @@ def c4(ctx):
 
 def c5(ctx):
     entry.rewind(ctx)
+    entry.peek_copy(ctx)
 
 
 def c6(ctx):
@@ -47,6 +48,13 @@ def c7(ctx):
     entry.funnel(ctx)
 
 
+def sweep(ctx):
+    """thorough: every documented option, over every function of the package."""
+    fwd.fwd_options(ctx, list(fwd.OPTIONS), floor=30)
+
+
+sweep.thorough_only = True
+
 CLAUSES = [
     ("C03.1", "keys upper-cased in every reader (R-KEYNORM)", c1),
     ("C03.2-3", "first vs. all components; six trimmed fields or ValueError; SSC chart opening", c2),
@@ -54,4 +62,5 @@ CLAUSES = [
     ("C03.5", "peeked stream is rewound (R-REWIND)", c5),
     ("C03.6", "format dispatch table", c6),
     ("C03.7", "one funnel to the tokenizer", c7),
+    ("C03.sweep", "package-wide option forwarding (thorough)", sweep),
 ]
